@@ -276,11 +276,13 @@ def conc(case):
         ctx.check_concrete(len(log) == n0 and rs2 == ['stored'], 'control-keywords', dict(info, kw='store_cache_value then call'))
         # 2.0 == 2 and True == 1 in Python, but they are JSON-distinguishable from the defaults 2 and 3: other entries
         n0 = len(log)
+        obj.m(v)
         obj.m(v, 9)
         obj.m(v, 9.0)
         obj.m(v, 2.0)
+        obj.m(v, 5, c=3.0)
         obj.m(v, 5, c=True)
-        ctx.check_concrete(len(log) == n0 + 4, 'one-entry<=>same-binding',
+        ctx.check_concrete(len(log) == n0 + 6, 'one-entry<=>same-binding',
                            dict(info, what='values == to another value / to a default but JSON-distinguishable', executions=len(log) - n0))
         # a result that is None is a result: the method runs once
         logn = []
